@@ -75,6 +75,9 @@ func (e *env) cowPath(seg int, blockOffset int64) string {
 func mkID(mod, block, slot int, salt uint32) sop.UUID {
 	var u sop.UUID
 	high := uint64(salt)*uint64(mod)*1 + uint64(block) // (salt*mod + block) % mod == block
+	// no zero byte runs at the start of the id: a neighbour's write spilling over the first bytes of a record must
+	// change it (all-zero leading bytes would hide that). The added term is a multiple of mod.
+	high += (uint64(0xA5C3)<<48 | uint64(0x5A)<<40) / uint64(mod) * uint64(mod)
 	low := uint64(salt)*slotsInBlock + uint64(slot)    // % 66 == slot
 	binary.BigEndian.PutUint64(u[0:8], high)
 	binary.BigEndian.PutUint64(u[8:16], low)
